@@ -23,8 +23,8 @@ func TestSweep(t *testing.T) {
 	for _, e := range Pairs {
 		ds := e.S.Bits
 		Oracle.One(t, env, rec, "sweep", &Case{S: e.S.Name, D: e.D.Name, Amps: BAmps[ds]})
-		for _, pad := range []int{1024, 4099} {
-			Oracle.One(t, env, rec, "sweep", &Case{S: e.S.Name, D: e.D.Name, Amps: BAmps[ds], Pad: pad})
+		for i, pad := range []int{1024, 4099} {
+			Oracle.One(t, env, rec, "sweep", &Case{S: e.S.Name, D: e.D.Name, Amps: BAmps[ds], Pad: pad, Fix: 1 + i})
 		}
 		if ds == 8 { // every 8-bit code, alone in short buffers and repeated in long ones
 			all := make([]int64, 256)
